@@ -25,6 +25,17 @@ def gen_domain(rng, n_actions=4, with_forall=True, with_numeric=True):
         # keep preconditions light so that walks stay alive
         pre = g.pre() if rng.random() < 0.6 else L(S("and"), g.lit())
         acts.append((f"a{i}", params, pre, g.eff()))
+    if rng.random() < 0.6:
+        # the same fact added by an action over a narrow type and deleted / tested by one over a broad type
+        narrow, broad = rng.choice([("t2", "t1"), ("t2", "object"), ("t1", "object")])
+        if rng.random() < 0.5:
+            acts.append(("addn", [["?x", narrow]], L(), L(S("and"), L(S("p"), S("?x")))))
+            acts.append(("delb", [["?x", broad if broad != "object" else "t1"]], L(S("and"), L(S("p"), S("?x"))),
+                         L(S("and"), L(S("not"), L(S("p"), S("?x"))))))
+        else:
+            acts.append(("addn", [["?x", "t2"], ["?y", narrow]], L(), L(S("and"), L(S("q"), S("?x"), S("?y")))))
+            acts.append(("delb", [["?x", "t1"], ["?y", "object"]], L(S("and"), L(S("q"), S("?x"), S("?y"))),
+                         L(S("and"), L(S("not"), L(S("q"), S("?x"), S("?y"))))))
     return gen_core.domain_tree(acts), acts
 
 
